@@ -382,7 +382,7 @@ class Model:
         else the default in the callee's signature.  Ellipsis when the call spreads * / ** or the callee is unknown."""
         q = self.resolve_call(fi, call)
         target = self.functions.get(q)
-        if target is None or any(isinstance(a, ast.Starred) for a in call.args) or any(k.arg is None for k in call.keywords):
+        if target is None or any(isinstance(a, ast.Starred) for a in call.args):
             return Ellipsis
         for k in call.keywords:
             if k.arg == pname:
@@ -393,6 +393,8 @@ class Model:
             pos = pos[1:]
         if pname in pos and pos.index(pname) < len(call.args):
             return call.args[pos.index(pname)]
+        if any(k.arg is None for k in call.keywords):
+            return Ellipsis          # a ** spread may carry it
         return target.param_default(pname)
 
     def mro(self, qualname, _seen=None):
